@@ -50,7 +50,7 @@ class LinChecker {
   std::vector<TOp> ops;      // all operations of the concurrent phase
   int ntasks = 0;
 
-  static const int* destruction_order() { static const int o[NFN] = {FN_K, FN_S, FN_U, FN_C, FN_R, FN_G, FN_F2, FN_F1}; return o; }
+  static const int* destruction_order() { static const int o[NFN] = {FN_Z, FN_K, FN_S, FN_U, FN_C, FN_R, FN_G, FN_F2, FN_F1}; return o; }
 
   std::vector<SubOp> subops_of(int i, bool use_cs) const {
     const TOp& o = ops[static_cast<size_t>(i)];
